@@ -8,7 +8,7 @@ FUNCS = [RT + "UniformRayTracePath." + f for f in ("__init__", "_points", "rho",
                                                    "received_direction", "path_length", "tof", "n0")] + \
     [RT + "UniformRayTracer." + f for f in ("__init__", "exists", "_reflected_path", "solutions", "rho", "phi")] + \
     [LY + "LayeredRayTracePath." + f for f in ("__init__", "emitted_direction", "received_direction", "path_length", "tof", "fresnel")] + \
-    [LY + "LayeredRayTracer." + f for f in ("_build_path", "_get_matching_ray_tracer", "_get_radial_distance", "_trace_path", "exists")]
+    [LY + "LayeredRayTracer." + f for f in ("solutions", "_build_path", "_get_matching_ray_tracer", "_get_radial_distance", "_trace_path", "exists")]
 
 
 def setup(rep):
@@ -25,8 +25,10 @@ def setup(rep):
                "boundary (two uniform layers, below the critical angle)")
     rep.clause("layered-transmission", "P", "unit Fresnel transmission when both sides of a boundary have the same index")
     rep.clause("layered-dispatch", "P", "each layer is traced with the tracer matching its ice model")
-    rep.clause("layered-chain-continuity", "N", "paths[i].to_point == paths[i+1].from_point is established inside the 170-line "
-               "search of LayeredRayTracer.solutions, which is outside the executor's reach (root searches, NaN bookkeeping)")
+    rep.clause("layered-chain-assembly", "B", "the statement block of LayeredRayTracer.solutions that turns (launch angle, section depths, "
+               "groups) into sub-paths is extracted mechanically from the current source and proved to build a continuous chain "
+               "from source to receiver with joints at the depths where the groups end - group layouts [[1],[0]], [[1,1],[0]], "
+               "[[2],[1,1],[0]], [[0,0]]; the launch-angle search around it is N")
     rep.clause("splitting-reproduces-unsplit-medium", "N", "needs the numeric root search of the layered tracer")
     rep.bounded.append("uniform tracer: reflections in {1,2,3}; _build_path: max_level <= 3, reflections <= 2")
     rep.assume("A1 floats as reals; A2 sqrt/sin/cos/arctan2/arcsin axioms; A5 numpy array operations of pyvc/npspec.py")
